@@ -5,6 +5,7 @@ package wire
 
 import (
 	"errors"
+	"fmt"
 	"io"
 	"net"
 	"time"
@@ -37,6 +38,10 @@ type netTempErr struct{}
 func (netTempErr) Error() string   { return "sim: injected transport error (temporary)" }
 func (netTempErr) Timeout() bool   { return false }
 func (netTempErr) Temporary() bool { return true }
+
+// errWrapsEOF is an abnormal end reported by a layer that says where it
+// happened and wraps io.EOF.
+var errWrapsEOF = fmt.Errorf("sim: tunnel closed by the other end: %w", io.EOF)
 
 // IsInjected reports whether err is (or wraps) one of the injected faults.
 func IsInjected(err error) bool {
@@ -77,6 +82,7 @@ type Pipe struct {
 	FailOnce    bool   // only the WFailAt-th write call fails; later ones are accepted (and counted in AfterErr)
 	NetErr      bool   // injected failures are net.Errors with Timeout() and Temporary() true
 	TempErr     bool   // injected failures are net.Errors with Temporary() true and Timeout() false
+	WrapEOFErr  bool   // injected read failures are an error that wraps io.EOF (errors.Is(err, io.EOF) holds, err != io.EOF)
 	ShortErr    bool   // a failing write reports io.ErrShortWrite (a transport that took part of the bytes and says so)
 	// Transient: byte ranges [from, to) of In inside which one Read (the
 	// first that starts there, chosen by TransientSalt) fails with a
@@ -168,6 +174,9 @@ func (p *Pipe) hitEnd() error {
 }
 
 func (p *Pipe) injected() error {
+	if p.WrapEOFErr {
+		return errWrapsEOF
+	}
 	if p.TempErr {
 		return ErrInjectedTemp
 	}
